@@ -26,7 +26,7 @@ def gen(ctx, rng):
     if not q:
         r = rng.random()
         if r < 0.015:
-            nx, nt = rng.randint(100, 300), rng.randint(1, 2)
+            nx, nt = rng.randint(100, 160), rng.randint(1, 2)   # ~170 unknowns: minutes of exact rational elimination; 300 took hours
         elif r < 0.03:
             nt = rng.randint(12, 30)
             nx = rng.randint(10, 24)
